@@ -2,7 +2,7 @@
    and the hand-written model Model/Concat.v. *)
 From Coq Require Import List Arith ZArith Lia Bool.
 From BiomV Require Import Base.Tree Base.ListUtil Base.Matrix Model.Table Model.Orient Model.Concat
-  Proofs.OrientProofs Gen.CatPrelude Gen.ConcatGen.
+  Proofs.OrientProofs Proofs.ConcatProofs Gen.CatPrelude Gen.ConcatGen.
 Import ListNotations.
 
 Definition same_mem (s s' : list Z) : Prop := forall x, zmem x s = zmem x s'.
@@ -237,10 +237,8 @@ Proof.
       rewrite IH, <- app_assoc; reflexivity.
 Qed.
 
-(* Table.concat(others, axis='observation') as translated = Model/Concat.v concat_t, on coherent operands.
-   MISSING: axis='sample' (the hand model works on the transposed operands there; the generated code
-   stacks the other way round - relating the two needs the transposition lemmas for hstack / padding). *)
-Theorem gen_concat_is_source_partial : forall (self : table) (others : others_arg),
+(* Table.concat(others, axis='observation') as translated = Model/Concat.v concat_t, on coherent operands *)
+Theorem gen_concat_observation_is_source_partial : forall (self : table) (others : others_arg),
   Forall wf (self :: normalise_others others) ->
   gen_concat self others Obs = concat_t (self :: normalise_others others) Obs.
 Proof.
@@ -269,6 +267,209 @@ Example concat_hypothesis_satisfiable :
   Forall wf (t1 :: normalise_others (OneTable t2)) /\
   gen_concat t1 (OneTable t2) Obs =
   ROk (mkT [1%Z; 2%Z] [10%Z; 11%Z; 12%Z] [[1%Z; 2%Z; 0%Z]; [0%Z; 4%Z; 3%Z]] None None 0%Z).
+Proof.
+  cbn zeta. split; [|vm_compute; reflexivity].
+  repeat (apply Forall_cons; [apply wfb_wf; vm_compute; reflexivity|]). apply Forall_nil.
+Qed.
+
+(* ================= the whole method, concatenation on the sample axis =================
+   Model/Concat.v transposes the operands, runs the row version and transposes back; the code stacks the
+   other way round (hstack for the result, vstack for the padding).  The lemmas below relate the two. *)
+Lemma zip_app_map {A} (f g : A -> list Z) l :
+  zip_app (map f l) (map g l) = map (fun x => f x ++ g x) l.
+Proof. induction l; cbn [map zip_app]; [reflexivity|]. rewrite IHl. reflexivity. Qed.
+
+Lemma mcol_app a b j : mcol (a ++ b) j = mcol a j ++ mcol b j.
+Proof. unfold mcol. apply map_app. Qed.
+
+(* the columns of a vertical stack: transposition turns vstack into hstack *)
+Lemma transpose_app c a b : transpose c (a ++ b) = zip_app (transpose c a) (transpose c b).
+Proof.
+  unfold transpose. rewrite zip_app_map. apply map_ext. intros j. apply mcol_app.
+Qed.
+
+Lemma nth_zero_row c j : nth j (zero_row c) 0%Z = 0%Z.
+Proof. unfold zero_row. revert j. induction c; intros [|j]; cbn; auto. Qed.
+
+Lemma mcol_zeros c k j : mcol (repeat (zero_row c) k) j = zero_row k.
+Proof.
+  unfold mcol, zero_row at 2. induction k; cbn [repeat map]; [reflexivity|].
+  rewrite nth_zero_row, IHk. reflexivity.
+Qed.
+
+(* zero rows below = zero columns to the right of the transposed block *)
+Lemma transpose_pad_rows c k m :
+  transpose c (m ++ repeat (zero_row c) k) = map (fun r => r ++ zero_row k) (transpose c m).
+Proof.
+  rewrite transpose_app. unfold transpose. rewrite zip_app_map, map_map.
+  apply map_ext. intros j. rewrite mcol_zeros. reflexivity.
+Qed.
+
+Lemma rect_app c a b : rect c a -> rect c b -> rect c (a ++ b).
+Proof. unfold rect. intros. apply Forall_app. split; assumption. Qed.
+
+Lemma rect_zeros c k : rect c (repeat (zero_row c) k).
+Proof.
+  unfold rect. apply Forall_forall. intros r Hr. apply repeat_spec in Hr. subst.
+  unfold zero_row. apply repeat_length.
+Qed.
+
+Lemma transpose_pad_cols c k m n : length m = n -> rect c m ->
+  transpose (n + k) (map (fun r => r ++ zero_row k) (transpose c m)) = m ++ repeat (zero_row c) k.
+Proof.
+  intros Hl Hr. rewrite <- transpose_pad_rows.
+  replace (n + k) with (length (m ++ repeat (zero_row c) k)) by (rewrite app_length, repeat_length; lia).
+  apply transpose_involutive. apply rect_app; [exact Hr|apply rect_zeros].
+Qed.
+
+Lemma transpose_concat c : forall (ms : list matrix) acc,
+  fold_left zip_app (map (transpose c) ms) (transpose c acc) = transpose c (acc ++ concat ms).
+Proof.
+  induction ms as [|m ms IH]; intros acc; cbn [map fold_left concat].
+  - rewrite app_nil_r. reflexivity.
+  - rewrite <- transpose_app, IH, app_assoc. reflexivity.
+Qed.
+
+Lemma sids_pad_table order mdm t : sids (pad_table order mdm t) = order.
+Proof.
+  unfold pad_table. destruct (list_eqb Z.eqb _ order) eqn:E; [apply list_eqb_Z_eq, E|reflexivity].
+Qed.
+
+(* the padded block as the code builds it on the sample axis and as Model/Concat.v builds it on the
+   transposed operand are each other's transpose *)
+Lemma pad_block_flip t ms mdm imd : wf t ->
+  let G := mkT (oids t ++ ms) (sids t) (mat t ++ repeat (zero_row (length (sids t))) (length ms))
+               (ctor_md (Some (imd ++ map (fun i : Z => md_get mdm i) ms))) (ctor_md (smd t)) NOTYPE in
+  let P := mkT (sids t) (oids t ++ ms) (map (fun r => r ++ zero_row (length ms)) (transpose (nsamp t) (mat t)))
+               (ctor_md (smd t)) (ctor_md (Some (imd ++ map (md_get mdm) ms))) NOTYPE in
+  flip G = P /\ G = flip P.
+Proof.
+  intros (Hlen & Hrect & _). cbv zeta. unfold flip, nsamp. cbn [oids sids mat omd smd ttype]. split; f_equal.
+  - apply transpose_pad_rows.
+  - rewrite app_length. symmetry. apply transpose_pad_cols; assumption.
+Qed.
+
+Lemma loop3_samp_spec self inv mdm : forall l acc,
+  Forall wf l ->
+  gen_concat_loop3 self Samp Obs VStack inv mdm (isort inv) acc l =
+  ROk (acc ++ map (fun t => flip (pad_table (isort inv) mdm (flip t))) l).
+Proof.
+  induction l as [|t r IH]; intros acc H; cbn [gen_concat_loop3 map].
+  - rewrite app_nil_r; reflexivity.
+  - inversion H as [|? ? Ht Hr]; subst. pose proof Ht as (Hlen & Hrect & Hndo & _).
+    unfold tb_ids, py_set, set_to_list, set_diff. cbn [ids]. rewrite (nodup_fixed_point Z.eq_dec Hndo).
+    rewrite isort_filter. unfold pad_table, pad_only.
+    change (sids (flip t)) with (oids t). change (oids (flip t)) with (sids t).
+    change (mat (flip t)) with (transpose (nsamp t) (mat t)).
+    change (omd (flip t)) with (smd t). change (smd (flip t)) with (omd t).
+    change (nsamp (flip t)) with (length (oids t)).
+    destruct (filter (fun y => negb (zmem y (oids t))) (isort inv)) as [|z f] eqn:F.
+    + cbn [list_nonempty rbind]. unfold ids_all_eq, list_append, tb_sort_order.
+      change (sids (flip t)) with (oids t).
+      destruct (list_eqb Z.eqb (oids t) (isort inv)); cbn [rbind]; rewrite IH by assumption; rewrite <- app_assoc.
+      * rewrite flip_flip by exact Ht. reflexivity.
+      * reflexivity.
+    + cbn [list_nonempty axis_is_sample rbind]. unfold zero_matrix, apply_stack. cbn [fst snd concat rbind].
+      rewrite app_nil_r.
+      unfold tb_metadata, mds, tb_matrix_data, list_copy, list_extend, tb_new, dict_getitem, none_list.
+      destruct (pad_block_flip t (z :: f) mdm (md_list (omd t) (length (oids t))) Ht) as [HG1 HG2].
+      cbv zeta in HG1, HG2.
+      destruct (omd t) as [om|]; cbn [optmd_is_none list_of_optmd rbind md_list] in *;
+        unfold ids_all_eq, list_append, tb_sort_order; cbn [oids sids];
+        match goal with |- context [list_eqb Z.eqb ?A ?B] => destruct (list_eqb Z.eqb A B) end;
+        cbn [rbind]; rewrite IH by assumption; rewrite <- app_assoc; cbn [app];
+        try (rewrite HG1; reflexivity); try (rewrite <- HG2; reflexivity).
+Qed.
+
+Lemma loop4_samp_spec : forall l acc,
+  gen_concat_loop4 Samp (py_itemgetter 1) acc (map flip l) =
+  ROk (acc ++ concat (map (fun p => md_list (omd p) (length (oids p))) l)).
+Proof.
+  induction l as [|p l IH]; intros acc; cbn [gen_concat_loop4 map concat].
+  - rewrite app_nil_r. reflexivity.
+  - unfold tb_metadata, mds. change (smd (flip p)) with (omd p).
+    destruct (omd p); cbn [optmd_is_none rbind apply_getter py_itemgetter tb_shape snd list_extend_opt md_list none_list];
+      [|change (nsamp (flip p)) with (length (oids p))]; rewrite IH, <- app_assoc; reflexivity.
+Qed.
+
+Lemma hstack_transposes c ms : ms <> [] ->
+  apply_stack HStack (map (transpose c) ms) = ROk (transpose c (concat ms)).
+Proof.
+  destruct ms as [|m ms]; [congruence|]. intros _. cbn [map apply_stack concat].
+  rewrite transpose_concat. reflexivity.
+Qed.
+
+Lemma mat_flip_padded order m l :
+  map (fun t => tb_matrix_data t) (map flip (map (pad_table order m) l)) =
+  map (transpose (length order)) (map mat (map (pad_table order m) l)).
+Proof.
+  rewrite !map_map. apply map_ext. intros t. unfold tb_matrix_data, flip, nsamp. cbn [mat].
+  rewrite sids_pad_table. reflexivity.
+Qed.
+
+(* Table.concat(others, axis='sample') as translated = Model/Concat.v concat_t, on coherent operands *)
+Theorem gen_concat_sample_is_source_partial : forall (self : table) (others : others_arg),
+  Forall wf (self :: normalise_others others) ->
+  gen_concat self others Samp = concat_t (self :: normalise_others others) Samp.
+Proof.
+  intros self others H.
+  assert (Hnd : Forall (fun t => NoDup (ids (other Samp) t)) (self :: normalise_others others)).
+  { eapply Forall_impl; [|exact H]. intros t Ht. apply Ht. }
+  pose proof (scan_loop1_spec Samp _ [] [] [] [] (fun x => eq_refl) eq_refl Hnd) as L. cbn [other] in L.
+  pose proof (padded_stackable _ (Forall_wf_orient Samp _ H)) as Hst.
+  unfold padded_of, order_of, mdmap_of in Hst.
+  unfold gen_concat, concat_t.
+  cbn [axis_is_sample rbind invert_axis other].
+  change (list_insert (list_copy (normalise_others others)) 0 self) with (self :: normalise_others others).
+  rewrite loop1_same. unfold set_empty, dict_empty.
+  remember (self :: normalise_others others) as ts eqn:Hts.
+  assert (Hne : ts <> []) by (subst ts; discriminate).
+  assert (Hcr : concat_rows (map (orient Samp) ts) =
+                if negb (disjoint_ok [] (map (orient Samp) ts)) then RErr E_DISJOINT
+                else let '(inv_ids, mdmap) := collect [] [] (map (orient Samp) ts) in
+                     ROk (stack_rows (isort inv_ids) (ttype self)
+                            (map (pad_table (isort inv_ids) mdmap) (map (orient Samp) ts))))
+    by (subst ts; reflexivity).
+  rewrite Hcr. clear Hcr.
+  destruct (gen_concat_scan_loop1 Samp Obs [] [] [] ts) as [[[ax s] m]|c];
+    destruct L as [L1 L2]; cbn [rbind]; [|subst c; rewrite L2; reflexivity].
+  rewrite L1, L2 in *. cbn [negb fst snd] in *. unfold py_sorted. rewrite loop3_samp_spec by exact H. cbn [rbind app].
+  change (map (orient Samp) ts) with (map flip ts) in *.
+  replace (map (fun t => flip (pad_table (isort s) m (flip t))) ts)
+    with (map flip (map (pad_table (isort s) m) (map flip ts))) by (rewrite !map_map; reflexivity).
+  set (ps := map (pad_table (isort s) m) (map flip ts)) in *.
+  assert (Hps : ps <> []) by (subst ps; destruct ts; [congruence|discriminate]).
+  unfold ps at 1. rewrite mat_flip_padded. fold ps.
+  rewrite hstack_transposes by (destruct ps; [congruence|discriminate]). cbn [rbind].
+  rewrite loop4_samp_spec. cbn [rbind app].
+  destruct ps as [|p0 ps'] eqn:Eps; [congruence|]. cbn [map list_getitem nth_error rbind].
+  unfold tb_new, stack_rows, orient, flip, nsamp, tb_metadata, mds, tb_type, np_concatenate.
+  cbn [oids sids mat omd smd ttype map]. f_equal. f_equal.
+  - rewrite map_map. reflexivity.
+  - f_equal. f_equal.
+    change (md_list (omd p0) (length (oids p0)) :: map (fun p => md_list (omd p) (length (oids p))) ps')
+      with (map (fun p => md_list (omd p) (length (oids p))) (p0 :: ps')).
+    change (md_list (omd p0) (length (mat p0)) :: map (fun t => md_list (omd t) (length (mat t))) ps')
+      with (map (fun t => md_list (omd t) (length (mat t))) (p0 :: ps')).
+    f_equal. apply map_ext_in. intros p Hp. rewrite Forall_forall in Hst. destruct (Hst p Hp) as [Hl _].
+    rewrite Hl. reflexivity.
+Qed.
+
+(* the whole method, both axes *)
+Theorem gen_concat_is_source_partial : forall (self : table) (others : others_arg) (a : axis),
+  Forall wf (self :: normalise_others others) ->
+  gen_concat self others a = concat_t (self :: normalise_others others) a.
+Proof.
+  intros self others [|] H;
+    [apply gen_concat_observation_is_source_partial|apply gen_concat_sample_is_source_partial]; exact H.
+Qed.
+
+Example concat_sample_hypothesis_satisfiable :
+  let t1 := mkT [1%Z; 2%Z] [10%Z] [[1%Z]; [2%Z]] None None 0%Z in
+  let t2 := mkT [3%Z; 2%Z] [11%Z] [[3%Z]; [4%Z]] None None 0%Z in
+  Forall wf (t1 :: normalise_others (ManyTables [t2])) /\
+  gen_concat t1 (ManyTables [t2]) Samp =
+  ROk (mkT [1%Z; 2%Z; 3%Z] [10%Z; 11%Z] [[1%Z; 0%Z]; [2%Z; 4%Z]; [0%Z; 3%Z]] None None 0%Z).
 Proof.
   cbn zeta. split; [|vm_compute; reflexivity].
   repeat (apply Forall_cons; [apply wfb_wf; vm_compute; reflexivity|]). apply Forall_nil.
